@@ -90,17 +90,20 @@ def err_class(e):
     return pl.err_class(e)
 
 
-def canon_term(t):
-    """Canonical text of an answer term in which every list is a multiset."""
+def canon_term(t, dedup=False):
+    """Canonical text of an answer term in which every list is a multiset
+    (dedup=True: a set; only used to recognise the duplicate-element symptom)."""
     from problog.logic import Term, Var
     if isinstance(t, Term) and not isinstance(t, Var) and t.functor == "." and t.arity == 2:
         elems = []
         cur = t
         while isinstance(cur, Term) and cur.functor == "." and cur.arity == 2:
-            elems.append(canon_term(cur.args[0]))
+            elems.append(canon_term(cur.args[0], dedup))
             cur = cur.args[1]
         elems.sort()
-        tail = "" if (isinstance(cur, Term) and cur.functor == "[]" and cur.arity == 0) else "|" + canon_term(cur)
+        if dedup:
+            elems = sorted(set(elems))
+        tail = "" if (isinstance(cur, Term) and cur.functor == "[]" and cur.arity == 0) else "|" + canon_term(cur, dedup)
         return "{[" + ",".join(elems) + tail + "]}"
     if isinstance(t, Term) and not isinstance(t, Var) and t.arity > 0:
         try:
@@ -109,7 +112,7 @@ def canon_term(t):
             return str(t)
         if any(a is None or isinstance(a, int) for a in args):
             return str(t)
-        return "%s(%s)" % (t.functor, ",".join(canon_term(a) for a in args))
+        return "%s(%s)" % (t.functor, ",".join(canon_term(a, dedup) for a in args))
     return str(t)
 
 
@@ -153,7 +156,7 @@ def run_mode(prog, mode, timeout=10, cache=None, ground_only=False):
         os.environ[SEED_ENV] = str(int(arg))
     if kind == "random":
         es.random.seed(int(arg))
-    out = {"mode": mode, "status": "err", "err": None, "exact": {}, "canon": {}, "stats": None, "reused": False}
+    out = {"mode": mode, "status": "err", "err": None, "exact": {}, "canon": {}, "canonset": {}, "stats": None, "reused": False}
     t0 = time.time()
     eng = None
     old = signal.signal(signal.SIGALRM, _alarm)
@@ -168,30 +171,33 @@ def run_mode(prog, mode, timeout=10, cache=None, ground_only=False):
             key = hashlib.sha1(str(lf).encode()).hexdigest()
         if ground_only:
             # accept/reject + reported instances only (used by the shrinker and the per-query isolation)
-            res = [(str(k), canon_term(k), 1.0) for k, n in lf.queries()]
+            res = [(str(k), canon_term(k), canon_term(k, True), 1.0) for k, n in lf.queries()]
         elif key is not None and key in cache:
             res = cache[key]
             out["reused"] = True
         else:
             raw = get_evaluatable().create_from(lf).evaluate()
-            res = [(str(k), canon_term(k), float(v)) for k, v in raw.items()]
+            res = [(str(k), canon_term(k), canon_term(k, True), float(v)) for k, v in raw.items()]
             if key is not None:
                 cache[key] = res
-        for s, c, v in res:
+        for s, c, cset, v in res:
             out["exact"][s] = out["exact"].get(s, 0.0) + v
             out["canon"][c] = out["canon"].get(c, 0.0) + v
+            out["canonset"][cset] = out["canonset"].get(cset, 0.0) + v
         out["status"] = "ok"
     except BaseException as e:  # noqa
         if isinstance(e, (KeyboardInterrupt, SystemExit)):
             raise
+        signal.alarm(0)
         out["err"] = err_class(e)
         out["errmsg"] = (type(e).__name__ + ": " + str(e))[:200]
-        try:
-            import traceback
-            fr = traceback.extract_tb(e.__traceback__)[-1]
-            out["errwhere"] = "%s:%s" % (os.path.basename(fr.filename), fr.name)
-        except Exception:
-            out["errwhere"] = "?"
+        tb = e.__traceback__
+        while tb is not None and tb.tb_next is not None:
+            tb = tb.tb_next
+        if tb is not None:
+            code = tb.tb_frame.f_code
+            out["errwhere"] = "%s:%s" % (os.path.basename(code.co_filename), code.co_name)
+        del tb
     finally:
         signal.alarm(0)
         signal.signal(signal.SIGALRM, old)
@@ -205,7 +211,7 @@ def run_mode(prog, mode, timeout=10, cache=None, ground_only=False):
     return out
 
 
-def same(a, b, exact=False):
+def same(a, b, exact=False, field=None):
     """Compare two run_mode outcomes; returns None when they agree, else a short reason.
     Timeouts never compare (caller records them)."""
     if a["status"] != b["status"]:
@@ -213,6 +219,8 @@ def same(a, b, exact=False):
     if a["status"] == "err":
         return None if a["err"] == b["err"] else "error class: %s vs %s" % (a["err"], b["err"])
     da, dbb = (a["exact"], b["exact"]) if exact else (a["canon"], b["canon"])
+    if field:
+        da, dbb = a[field], b[field]
     for k in sorted(set(da) | set(dbb)):
         pa, pb = da.get(k, 0.0), dbb.get(k, 0.0)
         if abs(pa - pb) > TOL:
@@ -603,3 +611,42 @@ def judge(prog, base, r, lines=None):
             if r["err"] in iso and base["err"] in iso:
                 return ("multi-error", None, d)
     return ("violation", "%s:unclassified:%s" % (fam, d.split(":")[0].replace(" ", "-").replace("/", "-")), d)
+
+
+def source_text(prog):
+    if "src" in prog:
+        return prog["src"]
+    try:
+        with open(prog["path"]) as f:
+            return f.read()
+    except OSError:
+        return ""
+
+
+def uses_findall(prog):
+    import re
+    return re.search(r"\b(findall|all|all_or_none)\s*\(", source_text(prog)) is not None
+
+
+def judge_modes(prog, base, r, lines=None):
+    """C04: like judge(), with the symptom classes of the unbuffered / rc-first / random engines."""
+    v, klass, d = judge(prog, base, r, lines)
+    if v == "multi-error":
+        # an unbuffered engine that reports a *different* error than the default still rejects: decision agrees
+        return v, klass, d
+    if v != "violation" or "unclassified" not in (klass or ""):
+        return v, klass, d
+    fam = mode_family(r["mode"])
+    rmsg = r.get("errmsg") or ""
+    bmsg = base.get("errmsg") or ""
+    if base["err"] == "NegativeCycle" and r["status"] == "ok" and stratified(prog) is False:
+        return v, "%s:answers-where-default-raises-NegativeCycle-on-unstratified-program" % fam, d
+    if rmsg.startswith("IndirectCallCycleError") and not bmsg.startswith("IndirectCallCycleError"):
+        return v, "%s:IndirectCallCycleError-only-in-this-mode" % fam, d
+    if r["err"] == "INTERNAL:InvalidEngineState" and base["err"] != r["err"]:
+        return v, "%s:InvalidEngineState-only-in-this-mode" % fam, d
+    if base["status"] == "ok" and r["status"] == "ok" and uses_findall(prog):
+        if same(base, r, field="canonset") is None:
+            return v, "%s:findall-duplicate-elements" % fam, d
+        return v, "%s:findall-result-differs" % fam, d
+    return v, klass, d
